@@ -32,6 +32,10 @@ def history_search(ctx, nhist, maxlen, longlen):
         rnd.shuffle(pairs)
         for i, j in pairs[:nhist]:
             hists.append([i, j])
+        from api_calls import related_pairs
+        for i, j in related_pairs():
+            if [i, j] not in hists:
+                hists.append([i, j])
         for _ in range(nhist // 2):
             hists.append([rnd.randrange(len(CALLS)) for _ in range(rnd.randint(3, maxlen))])
         for _ in range(2 if not ctx.thorough else 8):
